@@ -1,6 +1,7 @@
 import DispatchVerif.Core.LaneFFifoMain
 import DispatchVerif.Core.LaneFF15
 import DispatchVerif.Core.LaneRProof
+import DispatchVerif.Core.WlhWalk
 /-! # C02 — serial queues run one item at a time, in submission order
 
 `LaneR` / `LaneF`: the serial lane for any number of threads and any mix of asynchronous and synchronous submissions
@@ -35,5 +36,19 @@ theorem F15_sync_fast_path_overtakes :
       (∃ it ∈ s1.sh.items, it.id = 2 ∧ it.linked = true) ∧
       LaneF.exec s1 LaneF.f15b = some s2 ∧ s2.pcs 3 = .sRunningFast 3 ∧ 2 ∉ s2.sh.startedP ∧ s2.sh.dq.O = some 3 :=
   LaneF.sync_fast_path_overtakes
+
+/-! ## the waiter's hierarchy walk under `dispatch_set_target_queue` (F39) -/
+
+/-- **a thread about to wait for a queue never dereferences a NULL target**, from whatever queue the walk is entered and whatever
+    that queue's role bits said when the caller looked (they may be stale: the target of an active queue can be changed): the walk
+    stops at a root queue. For every acyclic hierarchy whose root queues alone have no target. -/
+theorem wlh_walk_never_faults (qs : List WlhWalk.Q) (hwf : WlhWalk.WF qs) (dq : Nat) (q : WlhWalk.Q) (hq : qs[dq]? = some q)
+    (hr : q.root = false) (f : Nat) (hf : dq < f) : WlhWalk.walk true qs f dq ≠ .fault :=
+  WlhWalk.walk_never_faults qs hwf dq q hq hr f hf
+
+/-- F39 as found: the queue was an inner queue when the waiter looked and targets a global root queue when the walk reads its target -/
+theorem F39_as_found :
+    WlhWalk.walk false [⟨.neither, true, none⟩, ⟨.anon, false, some 0⟩] 2 1 = .fault ∧
+    WlhWalk.walk true [⟨.neither, true, none⟩, ⟨.anon, false, some 0⟩] 2 1 = .anon := WlhWalk.F39_as_found
 
 end C02
